@@ -563,9 +563,10 @@ class EGen:
 
     def st_json(self, labels=(), exprs=()):
         """exprs: list of (label, path text, [sel...]) with sel = ('k',name)|('i',n)"""
-        pc = lambda path: clist(("JKey %s" % cbytes(B(s[1]))) if s[0] == "k" else ("JIdx %d" % s[1]) for s in path)
+        # the model receives the path TEXT and parses it with its own model of jsonexpr.Parse (Run/Eng.v `jp`); the selector list the
+        # generator states stays the generator's independent reading (used for expectations)
         return {"k": "json", "labels": list(labels), "exprs": [(l, t) for l, t, _ in exprs],
-                "coq": "EJson %s %s" % (clist(cbytes(B(l)) for l in labels), clist("(%s,%s)" % (cbytes(B(l)), pc(p)) for l, _, p in exprs))}
+                "coq": "EJson %s %s" % (clist(cbytes(B(l)) for l in labels), clist("(%s,jp %s)" % (cbytes(B(l)), cbytes(B(t))) for l, t, _ in exprs))}
 
     def st_logfmt(self, labels=(), exprs=()):
         table = [(l, l) for l in labels] + [(key, lab) for lab, key in exprs]
@@ -595,7 +596,8 @@ class EGen:
     def st_pattern(self, parts):
         """parts: list of ('lit', text) | ('cap', name)"""
         p = "".join(t if k == "lit" else "<%s>" % t for k, t in parts)
-        return {"k": "pattern", "p": p, "coq": "EPattern %s" % clist(("PLit %s" % cbytes(B(t))) if k == "lit" else ("PCap %s" % cbytes(B(t))) for k, t in parts)}
+        # the model receives the pattern TEXT and parses it with its own model of logqlpattern.Parse (Run/Eng.v `pat`)
+        return {"k": "pattern", "p": p, "coq": "EPattern (pat %s)" % cbytes(B(p))}
 
     def st_regexp(self, sid, src, names):
         """names: list of group names in order (None for unnamed groups)"""
